@@ -32,6 +32,8 @@ THEOREMS = [
     "Optyx.Props.C07.getitem_transpose",
     "Optyx.Props.C07.getitem_symmetric",
     "Optyx.Props.Glue.lpGlue_text",
+    "Optyx.Props.Dispatch.solve_autoSelect_eq_generated",
+    "Optyx.Props.Dispatch.solve_route_eq_generated",
 ]
 ASSUMPTIONS = [
     "solver contract (explicit hypotheses of the theorems): minimize returns fun = f'(x) for the objective it was "
